@@ -326,12 +326,9 @@ func (r *Run) writeEvidence(out string, violations, known, discharged int) {
 		"seed":        0,
 		"level":       r.Level,
 		"coverage":    cov,
-		"assumptions": r.Assume,
+		"assumptions": append([]string{}, r.Assume...),
 		"wall_s":      time.Since(r.Start).Seconds(),
 		"violations":  violations,
-	}
-	if ev["assumptions"] == nil {
-		ev["assumptions"] = []string{}
 	}
 	b, _ := json.MarshalIndent(ev, "", " ")
 	os.MkdirAll(filepath.Dir(out), 0o755)
